@@ -31,8 +31,8 @@ OBLIGATIONS = [
     "Grog.C03.no_second_wake",
     "Grog.C03.running_le_workers",
     "Grog.C03.no_command_start_under_cancelled_context",
-    "Grog.C03.exec_at_most_once_partial",
-    "Grog.C03.exec_more_than_once_witness",
+    "Grog.C03.exec_at_most_once",
+    "Grog.C03.exec_more_than_once_witness_old",
 ]
 ASSUMPTIONS = [
     "selection closed under dependencies and graph acyclic (CfgOK; discharged by the selection / analysis properties C12, C11)",
@@ -43,7 +43,7 @@ ASSUMPTIONS = [
 
 def run(ctx):
     quick = ctx.tier == "quick"
-    ncases = 260 if quick else 4000
+    ncases = 420 if quick else 5000
     rng = ctx.rng
     cases = []
     # targeted families first: zero-latency wide fan-out / fan-in (registration window), diamonds with one slow side
@@ -64,6 +64,21 @@ def run(ctx):
     for w in (1, 2, 3, 8):
         n, e, fam = W.g_forest(40)
         cases.append(dict(W.make_case(rng, family=(n, e, fam), workers=w, fail_fast=False), latUs=[300] * n, fail=[], unsel=[]))
+    # boundary sizes (buffer sizes / powers of two), each twice (different schedules)
+    for k in (63, 64, 65, 127, 128, 129, 255, 256, 257):
+        for rep in range(2):
+            n, e, fam = (W.g_fanout if rep == 0 else W.g_fanin)(k)
+            c = W.make_case(rng, family=(n, e, fam), workers=rng.choice([0, 4]), fail_fast=False)
+            c.update(latUs=[0] * n if rep == 0 else c["latUs"], fail=[], unsel=[])
+            cases.append(c)
+    for w in (1, 2, 3, 4, 7, 8, 9, 16, 17):
+        n, e, fam = W.g_forest(2 * w + 3)
+        cases.append(dict(W.make_case(rng, family=(n, e, fam), workers=w, fail_fast=False), latUs=[200] * n, fail=[], unsel=[]))
+    # degenerate shapes: single node, nothing selected, everything independent and failing
+    cases.append(dict(W.make_case(rng, family=(1, [], "single"), workers=0, fail_fast=False), fail=[], unsel=[]))
+    cases.append(dict(W.make_case(rng, family=(1, [], "single"), workers=1, fail_fast=True), fail=[0], unsel=[]))
+    cases.append(dict(W.make_case(rng, family=(3, [[0, 1], [1, 2]], "nothing-selected"), workers=0, fail_fast=False), fail=[], unsel=[0, 1, 2]))
+    cases.append(dict(W.make_case(rng, family=(5, [], "independent"), workers=2, fail_fast=False), fail=[0, 1, 2, 3, 4], unsel=[]))
     while len(cases) < ncases:
         cases.append(W.make_case(rng, maxn=400 if rng.random() < 0.25 else 60, cancel=rng.random() < 0.15))
     ctx.coverage["rule"] = (f"{len(cases)} walks of the real dag.Walker: targeted (zero-latency fan-out/fan-in up to 400 nodes, diamonds with one slow side, "
@@ -138,12 +153,14 @@ def run(ctx):
                        "n_disagreements": len(disagreements)}, found_input=False)
 
 
-def cli_case(ctx, idx, seed):
+def cli_case(ctx, idx, seed, fixed=None):
     """one cold build through the real CLI; oracle on the O_APPEND trace of the commands"""
     import random
     rng = random.Random(seed)
     pick = rng.random()
-    if pick < 0.25:
+    if fixed:
+        n, edges, fam = fixed["graph"]
+    elif pick < 0.25:
         n, edges, fam = W.g_fanout(rng.randint(3, 6))
     elif pick < 0.45:
         n, edges, fam = W.g_diamonds(rng.randint(1, 2))
@@ -157,6 +174,8 @@ def cli_case(ctx, idx, seed):
     ws = W.CliWs(ctx, f"c03-{idx}", n, edges, sleep=sleep, workers=workers)
     ins, outs = W.deps_of(n, edges), W.dependants(n, edges)
     nocache = sorted(m for m in range(n) if rng.random() < 0.25)
+    if fixed:
+        workers, mode, nocache = fixed["workers"], fixed["mode"], fixed["nocache"]
     if nocache:
         p = os.path.join(ws.ws, "pkg", "BUILD.json")
         j = json.load(open(p))
@@ -197,7 +216,7 @@ def cli_case(ctx, idx, seed):
     res["model_counts"] = {}
     for m in nocache:
         if mode == "minimal" and not ins[m] and all(x not in nocache for x in outs[m]) and all(all(y not in nocache or y == m for y in ins[x]) for x in outs[m]):
-            res["model_counts"][m] = (1 + len(outs[m]), starts.get(m, 0))
+            res["model_counts"][m] = (1, starts.get(m, 0))     # Pool.execCount with producedInThisBuild
     if bad:
         res["out"] = b["out"][-800:]
     ws.cleanup()
@@ -211,7 +230,11 @@ def run_cli(ctx):
     seeds = [ctx.rng.randrange(1 << 30) for _ in range(24 if quick else 240)]
     results = []
     with cf.ThreadPoolExecutor(max_workers=4) as ex:
-        for f in [ex.submit(cli_case, ctx, i, s) for i, s in enumerate(seeds)]:
+        futs = [ex.submit(cli_case, ctx, i, s) for i, s in enumerate(seeds)]
+        # the input of the fixed finding F-nocache-rerun (regression): no-cache root with two / five dependants, minimal mode
+        for j, k in enumerate((2, 5)):
+            futs.append(ex.submit(cli_case, ctx, 1000 + j, 7 + j, {"graph": W.g_fanout(k + 1), "workers": 2, "mode": "minimal", "nocache": [0]}))
+        for f in futs:
             results.append(f.result())
     count_bad = []
     for r in results:
